@@ -737,7 +737,7 @@ class Stats:
 
 
 class Engine:
-    def __init__(self, seed=0, timeout_ms=4000, verify_tags=True, fallback_timeout_ms=60000):
+    def __init__(self, seed=0, timeout_ms=5000, verify_tags=True, fallback_timeout_ms=300000):
         self.fallback_timeout_ms = fallback_timeout_ms
         self._fallback_model = None
         self.solver = z3.Solver()
